@@ -180,6 +180,7 @@ def run(ctx):
            what="scan_deps splits dependency lists at %s but rDepends(a, b) emits \"%s\"" % (seps, val))
 
     self_edge_obligation(ctx, u, "R13.6")
+    rewalk_obligation(ctx, u, "R13.7")
 
 
 def _inside13(root, node):
@@ -226,3 +227,39 @@ def self_edge_obligation(ctx, u, rule):
                key=rule + ":scan_deps:self-edge",
                what="scan_deps records a dependency edge without excluding the message's own port: a port enabled by a toggle inside its own sub-tree makes that toggle wait for itself, and the line (with everything depending on it) is never dispatched")
 
+
+
+
+def rewalk_obligation(ctx, u, rule):
+    ctx.rule(rule, "NO-REWALK: scan_deps walks from a port up through its parents and calls itself for a dependency that has no line in the file; since such a dependency may lie below the level being examined (a sub-tree enabled by a port inside it), the recursive call is told the current level (or is made only under a test of it) - otherwise the walk comes back to this level and recurses without end")
+    fsd = u.function("scan_deps")
+    # the level cursor: the by-value string parameter that the parent walk shortens
+    cur = None
+    for p_ in u.params(fsd):
+        if "string" in (A.qtype(p_) or "") and "&" not in (A.qtype(p_) or ""):
+            if any(y.get("kind") == "CXXMemberCallExpr" and A.strip_casts(A.kids(y)[0]).get("name") in ("resize", "erase", "pop_back", "substr") and A.ref_id(A.kids(A.strip_casts(A.kids(y)[0]))[0]) == p_["id"] for y in A.walk(u.body(fsd))):
+                cur = p_
+    if cur is None:
+        raise AnalysisBroken("%s: the level cursor of scan_deps (a by-value path that the parent walk shortens) was not found" % rule)
+    calls = [c for c in A.calls_in(u.body(fsd), "scan_deps")]
+    if not calls:
+        raise AnalysisBroken("%s: scan_deps no longer calls itself" % rule)
+    for c in calls:
+        args = A.kids(c)[1:]
+        told = any(any(y.get("kind") == "DeclRefExpr" and (y.get("referencedDecl") or {}).get("id") == cur["id"] for y in A.walk(a_)) for a_ in args)
+        # a local flag computed from the cursor and handed on also counts
+        if not told:
+            for a_ in args:
+                for y in A.walk(a_):
+                    if y.get("kind") == "DeclRefExpr" and (y.get("referencedDecl") or {}).get("kind") == "VarDecl":
+                        d_ = u.by_id.get(y["referencedDecl"]["id"])
+                        if d_ is not None and "bool" in (A.qtype(d_) or "") and any(z.get("kind") == "DeclRefExpr" and (z.get("referencedDecl") or {}).get("id") == cur["id"] for z in A.walk(d_)):
+                            told = True
+        guarded = False
+        for anc in u.ancestors(c):
+            if anc.get("kind") == "IfStmt" and any(y.get("kind") == "DeclRefExpr" and (y.get("referencedDecl") or {}).get("id") == cur["id"] for y in A.walk(A.kids(anc)[0])) and not any(
+                    y.get("kind") == "CXXMemberCallExpr" and A.strip_casts(A.kids(y)[0]).get("name") in ("size", "empty", "find_last_of") for y in [A.strip_casts(A.kids(anc)[0])]):
+                guarded = True
+        ctx.ob(rule, "recursive call@%s" % A.loc(c)[1], told or guarded, site=A.where(c), detail={"level_cursor": cur.get("name"), "handed_to_the_call": told, "call_guarded_by_a_test_of_it": guarded},
+               key="%s:recursive call" % rule,
+               what="scan_deps calls itself for an absent dependency without reference to the level it is examining (`%s`): for a sub-tree enabled by a port inside it (`sub/` enabled by `sub/enabled`, the enabling port at its default and therefore not in the file) the walk returns to the sub-tree and recurses until the stack is exhausted" % cur.get("name"))
